@@ -16,7 +16,7 @@ LEVEL = "model_checking"
 RULE = (
     "streams: every multiset of <= N timestamps from the grid x every warm-up/normal assignment; histories: every ordered set "
     "partition of the stream into batches (all arrival orders across clients x all cuts), each alone and interleaved with "
-    "batches of a second task; runner-supplied throughput streams (all positive, zero on alternate samples, all zero) separately; variants: clients of odd samples start 0.1 s later (batches in ascending / descending sample order), failed requests "
+    "batches of a second task, and with a sample of a second task of the other kind (runner-supplied vs. calculated throughput) at the end of the same batch; runner-supplied throughput streams (all positive, zero on alternate samples, all zero) separately; variants: clients of odd samples start 0.1 s later (batches in ascending / descending sample order), failed requests "
     "with 0 operations (all normal ones / the last / all; quick: streams <= 3; thorough at 5 samples: one variant per family). State = prefix of batches delivered to one real "
     "ThroughputCalculator; transition = one calculate() call. non-trivial = history with >= 2 batches or >= 2 samples; "
     "distinct = (stream, partition, variant)"
@@ -124,9 +124,14 @@ def run_history(times, types, batches, other_task, passthrough=False, skew=False
         samples = [
             mk(e["task_a"], i, times[i], e["N"] if types[i] else e["W"], 0 if i in zero_set(zeros, types) else BASE**i, "docs", pt_value(passthrough, i), skew_of(skew, i)) for i in (reversed(batch) if rev else batch)
         ]
+        if other_task == "same":
+            # the SAME batch ends with a sample of another task of the other kind (runner-supplied throughput if task A's is calculated,
+            # calculated if task A's is runner-supplied): the decision is per task, not per batch
+            k += 1
+            samples.append(mk(e["task_b"], 100 + k, 0.75 * k, e["N"], 1, "ops", None if passthrough else 5.5 + k))
         r = calc.calculate(samples)
         out.append((bi, r.get(e["task_a"], []), r.get(e["task_b"], []), set(r.keys())))
-        if other_task:
+        if other_task and other_task != "same":
             # a batch that contains only the other task (task A is still running but has no sample in it)
             k += 1
             rb = calc.calculate([mk(e["task_b"], 100 + k, 0.75 * k, e["N"], 1, "ops")])
@@ -173,7 +178,15 @@ def oracle(times, types, batches, outs, other_task, passthrough, skew=False, rev
                 if tup[4] != "ops/s" or tup[3] < 0:
                     return ("other-task-unit-or-sign", f"{tup}")
             continue
-        if tb:
+        if other_task == "same":
+            b_values += len(tb)
+            kb = bi + 1
+            if passthrough:
+                if any(tup[3] is None or tup[3] < 0 or tup[4] != "ops/s" for tup in tb):
+                    return ("other-task-in-same-batch", f"calculated task next to a runner-supplied one in one batch: {tb}")
+            elif [(tup[0], tup[3], tup[4]) for tup in tb] != [(START + 0.75 * kb, 5.5 + kb, "ops/s")]:
+                return ("other-task-in-same-batch", f"runner-supplied throughput of the other task in the same batch not passed through 1:1: {tb}, sample carried {5.5 + kb} at t={0.75 * kb}")
+        elif tb:
             return ("phantom-values", f"other task values {tb} from a batch without its samples")
         if passthrough:
             want = sorted(
@@ -291,6 +304,8 @@ def _shard(arg):
             for p in range(nparts):
                 check_history(times, types, p, False, False, res)
                 check_history(times, types, p, True, False, res)
+                if not (quick_small and n >= 5):
+                    check_history(times, types, p, "same", False, res)
                 big = quick_small and n >= 5  # the longest streams of the thorough tier: one variant of each family
                 if len(times) > 1:
                     if not big:
@@ -304,6 +319,7 @@ def _shard(arg):
             for p in range(nparts):
                 for mode in (1, 2, 3):
                     check_history(times, types, p, False, mode, res)
+                check_history(times, types, p, "same", 1, res)
     return res
 
 
